@@ -94,9 +94,11 @@ def child_env(mode, extra=None):
 class Job:
     """One child process: `python -m framework.worker <module> <function>` fed a JSON task on stdin."""
 
-    def __init__(self, module, func, task, mode="interp", timeout=600, env=None, tag=None):
+    def __init__(self, module, func, task, mode="interp", timeout=600, env=None, tag=None, stall_s=None):
         self.module, self.func, self.task, self.mode = module, func, task, mode
         self.timeout, self.env, self.tag = timeout, env, tag
+        self.stall_s = stall_s  # kill when the per-case progress marker has not moved for that long
+        self.stalled_case = None
         self.proc = None
         self.result = None  # dict on success
         self.status = None  # 'ok' | 'timeout' | 'crash'
@@ -127,10 +129,13 @@ def run_jobs(jobs, parallel=None, progress=None):
             j.in_path = in_path
             j.t0 = time.time()
             j.errf = open(j.err_path, "w")
+            j.prog_path = base + ".progress"
+            envx = dict(j.env or {})
+            envx["NUCS_VERIF_PROGRESS"] = j.prog_path
             j.proc = subprocess.Popen(
                 [PYTHON, "-m", "framework.worker", j.module, j.func, in_path, j.out_path],
                 cwd=VERIF,
-                env=child_env(j.mode, j.env),
+                env=child_env(j.mode, envx),
                 stdout=j.errf,
                 stderr=subprocess.STDOUT,
                 start_new_session=True,
@@ -140,10 +145,22 @@ def run_jobs(jobs, parallel=None, progress=None):
         for j in list(running):
             rc = j.proc.poll()
             if rc is None:
-                if time.time() - j.t0 > j.timeout:
+                now = time.time()
+                stalled = False
+                if j.stall_s is not None and now - j.t0 > j.stall_s:
+                    try:
+                        stalled = now - os.path.getmtime(j.prog_path) > j.stall_s
+                    except OSError:
+                        stalled = False
+                if now - j.t0 > j.timeout or stalled:
                     _kill_group(j.proc)
                     j.status = "timeout"
                     rc = j.proc.wait()
+                    try:
+                        with open(j.prog_path) as f:
+                            j.stalled_case = json.load(f)
+                    except Exception:
+                        j.stalled_case = None
                 else:
                     continue
             j.rc = rc
@@ -173,7 +190,7 @@ def run_jobs(jobs, parallel=None, progress=None):
                             j.result = json.load(f)
                     except Exception:
                         j.result = None
-            for p in (j.in_path, j.out_path, j.err_path):
+            for p in (j.in_path, j.out_path, j.err_path, j.prog_path, j.prog_path + ".tmp"):
                 try:
                     os.unlink(p)
                 except OSError:
